@@ -6,6 +6,7 @@ pub mod c02;
 pub mod c02_producers;
 pub mod c02_shared;
 pub mod c03;
+pub mod c03_typed;
 pub mod c04;
 pub mod c05;
 pub mod c06;
